@@ -62,8 +62,11 @@ pub fn gen_radicand(r: &mut Rng, k: u32, p: u64, i: u64) -> Dec {
             let l = 1 + r.below(p + 3);
             let t: BigInt = gen::digit_string(r, l as usize).parse().unwrap();
             let ts = r.range(-100, 100);
-            let j = r.below(120) + 1;
-            let base = num_traits::pow::Pow::pow(&t, k) * pow10(j);
+            let pw = num_traits::pow::Pow::pow(&t, k);
+            // the perturbing unit sits 1..120 places down, or (1 in 4) anywhere down to the 2000-digit end of the domain
+            let room = 1990u64.saturating_sub(gen::ndigits(&pw));
+            let j = if room > 120 && r.chance(1, 4) { 1 + r.below(room) } else { r.below(120) + 1 };
+            let base = pw * pow10(j);
             let n = if r.bool() { base + 1u8 } else { base - 1u8 };
             Dec::new(n, ts * k as i64 + j as i64)
         }
@@ -85,7 +88,8 @@ pub fn gen_radicand(r: &mut Rng, k: u32, p: u64, i: u64) -> Dec {
             match r.below(3) {
                 0 => {}
                 _ => {
-                    let j = r.below(80) + 1;
+                    let room = 1990u64.saturating_sub(gen::ndigits(&n));
+                    let j = if room > 80 && r.chance(1, 4) { 1 + r.below(room) } else { r.below(80) + 1 };
                     n = n * pow10(j) + if r.bool() { 1 } else { -1 };
                     s += j as i64;
                 }
